@@ -197,7 +197,7 @@ def main(ck):
     if not os.path.exists(c07gen) and os.path.exists(os.path.join(vlib.COQSRC, "C07", "Gen_Consts.v")):
         os.makedirs(os.path.dirname(c07gen), exist_ok=True)
         open(c07gen, "w").write(open(os.path.join(vlib.COQSRC, "C07", "Gen_Consts.v")).read())
-    ok = ck.coq_build(["C09/CrossC07.vo", "C09/Corr.vo", "C09/Proofs.vo", "C09/ListSpec.vo", "C09/ChunkProofs.vo", "C09/BucketProofs.vo"])
+    ok = ck.coq_build(["C09/CrossC07Proofs.vo", "C09/CrossC07.vo", "C09/Corr.vo", "C09/Proofs.vo", "C09/ListSpec.vo", "C09/ChunkProofs.vo", "C09/BucketProofs.vo"])
     if ok:
         ck.coq_props(["C09/Props.v", "C09/Refuted.v"])
     binp = ck.go_build("./cmd/c09", "c09")
